@@ -438,6 +438,55 @@ impl Part for TinyLimits {
     }
 }
 
+// ---------------------------------------------------------------- limits beyond 4 GiB
+
+pub struct HugeLimits;
+impl Part for HugeLimits {
+    type Case = (u64, bool, bool);
+    fn name(&self) -> &'static str { "huge-limits" }
+    fn rule(&self) -> &'static str {
+        "a configured maximum of 2^32 .. 2^44 bytes (legal on 64-bit targets; values around multiples of 2^32 included) at the caller, the callee or both: ordinary messages (a few hundred bytes to 100 KiB) are far below it and must be delivered intact; non-trivial = every case; distinct by case"
+    }
+    fn fixed_cases(&self) -> Vec<(u64, bool, bool)> {
+        vec![(1 << 32, true, true), ((1 << 32) + 64, true, false), (1 << 33, false, true)]
+    }
+    fn strategy(&self, _t: Tier) -> BoxedStrategy<(u64, bool, bool)> {
+        (prop_oneof![(1u64..4096).prop_map(|k| k << 32), (1u64..4096, 0u64..100_000).prop_map(|(k, d)| (k << 32) + d), (1u64 << 32)..(1u64 << 44)], any::<bool>(), any::<bool>())
+            .prop_filter_map("limit somewhere", |(l, a, b)| (a || b).then_some((l, a, b))).boxed()
+    }
+    fn run(&self, c: &(u64, bool, bool), obs: &mut Obs) -> Result<(), Fail> {
+        let (limit, at_caller, at_callee) = *c;
+        run_sim(6, 2, |sim| async move {
+            let mut sa = NodeSpec::new(0);
+            sa.config.max_frame_size = at_caller.then_some(limit as usize);
+            let mut sb = NodeSpec::new(1);
+            sb.config.max_frame_size = at_callee.then_some(limit as usize);
+            let a = sim.node_with(sa)?;
+            let b = sim.node_with(sb)?;
+            match within(20_000, a.net.connect(b.addr())).await {
+                Ok(Ok(_)) => {}
+                _ => return Err(Fail::Inconclusive("connect failed".into())),
+            }
+            for (i, (req_len, resp_len)) in [(60usize, 10u32), (3_000, 2_000), (100_000, 70_000)].into_iter().enumerate() {
+                let ctl = Ctl { id: i as u64, delay_ms: 0, status_idx: 0, resp_len, resp_hdrs: 1, mode: 0 };
+                let req = ctl_request("/huge", &[], &ctl, req_len);
+                let body = req.body().clone();
+                match within(60_000, a.net.rpc(b.id(), req)).await {
+                    Ok(Ok(resp)) => {
+                        let exp = expected_response("/huge", &HashMap::new(), &body);
+                        vensure!(resp.status().to_u16() == exp.status && resp.headers() == &exp.headers && resp.body() == &exp.body, "c15:not-intact", "limit {limit}: delivered but not intact");
+                    }
+                    other => vfail!("c15:refused-within-limit", "a maximum of {limit} bytes is configured (caller={at_caller} callee={at_callee}); a request of {req_len} bytes with a response of {resp_len} bytes is far below it, yet: {:?}", other.map(|r| r.map(|x| x.status().to_u16()).map_err(|e| e.to_string()))),
+                }
+            }
+            sim.health()?;
+            obs.evals(3);
+            obs.nontrivial(c);
+            Ok(())
+        })
+    }
+}
+
 pub fn run(tier: Tier) -> i32 {
     let mut ctx = Ctx::new("C15", tier);
     ctx.assume("frame sizes are computed by the hand-written reference codec (refmodel::wire)");
@@ -445,6 +494,7 @@ pub fn run(tier: Tier) -> i32 {
     ctx.run_part(Codec, tier.pick(5_000, 1_000_000));
     ctx.run_part(Net, tier.pick(1_500, 150_000));
     ctx.run_part(TinyLimits, tier.pick(40, 600));
+    ctx.run_part(HugeLimits, tier.pick(60, 2_000));
     ctx.run_part(NoLimit, tier.pick(10, 150));
     ctx.finish()
 }
